@@ -281,7 +281,7 @@ ScaleUpOutcome(gs0, g, dry, now, F, N, ts, att, fleetLo, r) ==
       add == AddClamp(u.pc.desired, rest, bound)
       \* a slow cloud call (fault "slow"): one tick passes before the cloud answers; the request is accepted, and the cool-down
       \* starts, when it answers
-      sl == IF Failing(F, "slow", g) THEN 1 ELSE 0
+      sl == IF Failing(F, "slow", g) /\ ~gs0.cfg.fleet THEN 1 ELSE 0     \* (plain SetDesiredCapacity groups; fleet waits are not modelled as ticks)
   IN
   IF rest <= 0 THEN [u EXCEPT !.valid = @ /\ selOK, !.result = u.succ]
   ELSE IF add <= 0 THEN [u EXCEPT !.valid = @ /\ selOK, !.result = 0, !.uperr = TRUE]
